@@ -114,7 +114,7 @@ def pomo_training_axes(ctx: Ctx):
                 found.append((st, list(guards)))
             if isinstance(st, ast.If):
                 visit(st.body, guards + [st.test])
-                visit(st.orelse, guards + [st.test])
+                visit(st.orelse, guards + [ast.UnaryOp(op=ast.Not(), operand=st.test)])
             elif isinstance(st, (ast.For, ast.While, ast.With, ast.Try)):
                 for blk in ("body", "orelse", "finalbody"):
                     visit(getattr(st, blk, []) or [], guards)
@@ -123,7 +123,18 @@ def pomo_training_axes(ctx: Ctx):
         raise AnalysisError("POMO.shared_step: `n_aug = 0` for the training phase not found")
     for st, guards in found:
         names = sorted({x.id for g in guards for x in ast.walk(g) if isinstance(x, ast.Name)})
-        ok = bool(guards) and all(n in params for n in names)
+        def is_train(g, pol=True):
+            """the guard says `<parameter> == "train"` (mirrored / negated spellings included)"""
+            if isinstance(g, ast.UnaryOp) and isinstance(g.op, ast.Not):
+                return is_train(g.operand, not pol)
+            if isinstance(g, ast.Compare) and len(g.ops) == 1 and isinstance(g.ops[0], (ast.Eq, ast.NotEq)):
+                a_, b_ = g.left, g.comparators[0]
+                if isinstance(a_, ast.Constant):
+                    a_, b_ = b_, a_
+                if isinstance(a_, ast.Name) and a_.id in params and isinstance(b_, ast.Constant) and b_.value == "train":
+                    return isinstance(g.ops[0], ast.Eq) == pol
+            return False
+        ok = bool(guards) and all(n in params for n in names) and any(is_train(g) for g in guards) and all(is_train(g) or not any(isinstance(x, ast.Constant) and x.value == "train" for x in ast.walk(g)) for g in guards)
         ctx.ob("C16.h", "POMO.shared_step:training-drops-the-augmentation-axis", ok, f"{rel}:{st.lineno}",
                f"`n_aug = 0` is guarded by {[ast.unparse(g) for g in guards]}" +
                ("" if ok else f" -- the guard also depends on {[n for n in names if n not in params]}: for some configured num_augment the training layout keeps a singleton augmentation axis, "
